@@ -165,7 +165,7 @@ func EnumFileSets(tier string) (sets []FileSet, rule string, snapshotCases int) 
 		// one snapshot set in the quick tier: a packet of the observed flow carries exactly the
 		// timestamp of the snapshot and the flow continues in the next capture
 		for _, set := range ref.Sets() {
-			if set.Name != "snap-trigger" {
+			if set.Name != "snap-trigger" && set.Name != "snap-longlived" {
 				continue
 			}
 			cuts, err := ref.SnapshotCuts(set)
